@@ -87,6 +87,7 @@ type VC struct {
 	ifaceAsserts map[string]types.Type
 	names     map[string]int
 	tableDone bool
+	defs      map[string]string
 	lemmasUsed map[string]bool
 	strProv   map[string]strProvenance // string constants created by string([]byte): their source bytes
 }
@@ -223,7 +224,36 @@ func (vc *VC) Define(hint string, t Term) Term {
 	vc.n++
 	name := fmt.Sprintf("%s!%d", sanitize(hint), vc.n)
 	vc.Lines = append(vc.Lines, fmt.Sprintf("(define-fun %s () %s %s)", name, t.Sort, t.S))
+	if vc.defs == nil {
+		vc.defs = map[string]string{}
+	}
+	vc.defs[name] = t.S
 	return Term{name, t.Sort}
+}
+
+// SelectThrough reads arr[idx], looking through named definitions: if the array
+// is (syntactically) a store at the very same index, the stored value is
+// returned. Used so that a value written to a cell and read back keeps its
+// identity (closure references).
+func (vc *VC) SelectThrough(arr, idx Term) Term {
+	t := arr.S
+	for i := 0; i < 64; i++ {
+		if d, ok := vc.defs[t]; ok {
+			t = d
+			continue
+		}
+		if strings.HasPrefix(t, "(store ") {
+			parts := splitTopLevel(t[1 : len(t)-1])
+			if len(parts) == 4 {
+				if parts[2] == idx.S {
+					_, vs, _ := arr.Sort.IsArray()
+					return Term{parts[3], vs}
+				}
+			}
+		}
+		break
+	}
+	return Sel(arr, idx)
 }
 
 // Name introduces a declared constant equal to t (unlike Define, the term is
